@@ -397,13 +397,13 @@ where
     }
     fn update<T: ObjectWrite>(&mut self, old: PlainRef, obj: T) -> Result<RcRef<T>> {
         let r = match self.refs.get(old.id)? {
-            XRef::Free { .. } => panic!(),
+            XRef::Free { .. } => return Err(PdfError::FreeObject { obj_nr: old.id }),
             XRef::Raw { gen_nr, .. } => PlainRef { id: old.id, gen: gen_nr },
             // a compressed object keeps its number (generation 0); save() writes the new value as an
             // ordinary object and points the entry there
             XRef::Stream { .. } => PlainRef { id: old.id, gen: 0 },
             XRef::Promised => PlainRef { id: old.id, gen: 0 },
-            XRef::Invalid => panic!()
+            XRef::Invalid => return Err(PdfError::NullRef { obj_nr: old.id })
         };
         let primitive = obj.to_primitive(self)?;
         // the new value replaces whatever was written before (entries of an earlier dictionary
